@@ -21,6 +21,12 @@ func init() {
 			{name: "racecalib", test: "^TestVerifC08Calib$", race: true, instr: true, calib: true},
 			{name: "race", test: "^TestVerifC08$", race: true, instr: true},
 		}})
+	register(&prop{id: "C09", module: "kernel", pkg: "mm/pmm", level: "exploration", perCase: 700 * time.Second, post: postFrameHistories,
+		runs: []runSpec{
+			{name: "main", test: "^TestVerifC09$"},
+			{name: "racecalib", pkg: "sync", test: "^TestVerifC08Calib$", race: true, instr: true, calib: true},
+			{name: "race", test: "^TestVerifC09$", race: true, instr: true},
+		}})
 	register(simple("C10", "kernel", "multiboot", 8))
 	register(simple("C11", "kernel", "device/acpi/aml", 16))
 	register(simple("C12", "kernel", "device/acpi/aml", 16))
